@@ -191,7 +191,8 @@ func GenDatasetSized(t *rapid.T, large bool) Dataset {
 	named.Walk(func(x, p *ref.Node) {
 		anc.WriteString(">" + x.Name + "\n")
 		for j := 0; j < 6; j++ {
-			anc.WriteString(rapid.SampledFrom([]string{"A", "C", "G", "T"}).Draw(t, "ancnt"))
+			// soft-masked (lower-case) residues next to upper-case ones: "a" and "A" are different characters
+			anc.WriteString(rapid.SampledFrom([]string{"A", "C", "G", "T", "A", "T", "a", "t"}).Draw(t, "ancnt"))
 		}
 		anc.WriteString("\n")
 	})
